@@ -75,8 +75,28 @@ Definition m_bracket (x : str) : option (str * str) :=
   | _ => None
   end.
 
-(* (not|lang|nth-[a-z\-]+)\(.+\)  -- the name part may backtrack: nth-[a-z-]+ must be followed by '(' ;
-   since '(' is not in [a-z-] the greedy run is the only candidate *)
+(* (not|lang|nth-[a-z\-]+)\((?:[^()]|\([^()]*\))+\)  : the argument ends at its own closing parenthesis, one level of nested
+   parentheses is allowed; [^()] also matches line breaks *)
+Definition not_paren (c : ascii) : bool := negb (ch_eqb c "(" || ch_eqb c ")").
+Fixpoint pseudo_arg (fuel : nat) (x : str) (seen : bool) : option (str * str) :=      (* x starts after the '(' ; result: (argument incl. ')', rest) *)
+  match fuel with
+  | O => None
+  | S f =>
+    match x with
+    | [] => None
+    | c :: r =>
+        if ch_eqb c ")" then (if seen then Some ([c], r) else None)
+        else if ch_eqb c "(" then
+          let '(inner, rest) := span not_paren r in
+          match rest with
+          | d :: rest' => if ch_eqb d ")" then
+                            match pseudo_arg f rest' true with Some (a, b) => Some (c :: inner ++ d :: a, b) | None => None end
+                          else None
+          | [] => None
+          end
+        else match pseudo_arg f r true with Some (a, b) => Some (c :: a, b) | None => None end
+    end
+  end.
 Definition m_pseudo_call (x : str) : option (str * str) :=
   let after_name :=
     match ci_prefix ($"not") x with
@@ -92,9 +112,8 @@ Definition m_pseudo_call (x : str) : option (str * str) :=
     end in
   match after_name with
   | Some ("(" :: r) =>
-      let '(line, _) := span (fun c => negb (N.eqb (code c) 10)) r in
-      match greedy_to_close line with
-      | Some body => let n := (List.length x - List.length r + List.length body)%nat in Some (firstn n x, drop n x)
+      match pseudo_arg (S (List.length r)) r false with
+      | Some (arg, rest) => let n := (List.length x - List.length rest)%nat in Some (firstn n x, rest)
       | None => None
       end
   | _ => None
